@@ -21,7 +21,7 @@ T = {
  'C09-A': ('C09', 'SymbolTable::insert uses emplace and then dereferences the moved-from unique_ptr for a redeclaration diagnostic', 'the same name declared twice in one scope: SIGSEGV'),
  'C09-B': ('C09', 'new arity check does an unchecked dynamic_cast<Proc*> on the callee symbol', 'a call through a procedure-valued formal (proc apply(proc p) is p()): SIGSEGV'),
  'C10-Ap': ('C10', 'lexer comment skipping loop drops the end-of-file test', "a '#' comment on the last line without trailing newline: hexasm never terminates"),
- 'C10-B': ('C10', 'unknown-label check moved into the relative-operand helper only', 'undefined label as operand of LDAM/LDBM/STAM/LDAC/LDBC: null Label* dereferenced'),
+ 'C10-B-old': ('C10', 'unknown-label check moved into the relative-operand helper only', 'undefined label as operand of LDAM/LDBM/STAM/LDAC/LDBC: null Label* dereferenced'),
  'C11-A': ('C11', 'constant local vals no longer get a frame slot (early return skips setStackOffset)', 'an assignment to a constant local val: STAI_FB with the uninitialised Symbol::stackOffset, binary varies with heap contents'),
  'C11-Bp': ('C11', 'genString packs words with memcpy from a length+chars buffer and reads past its end (ported to HEAD: genString changed by the empty-string fix)', 'string literal of >= 15 characters with length % 4 in {0,1}: uninitialised heap bytes in the last DATA word'),
  'C12-A': ('C12', 'traceSyscall READ line has three conversions but two operands', '-t plus a program that performs a READ: boost::format throws and the traced run aborts with status 1'),
@@ -34,6 +34,41 @@ T = {
  'C16-A': ('C16', 'processor.sv OPR decode uses the full accumulated operand; not mirrored into processor.v', 'an OPR 0..3 byte right after a PFIX/NFIX that leaves oreg non-zero'),
  'C16-B': ('C16', 'hand edit of both processor.v copies drops the {11\'b0, ...} concatenation of LDAP', 'LDAP with a negative offset or wrapping past 2 MB'),
  'C17-Bp': ('C17', 'numNibbles comparison tree with one wrong constant (ported to HEAD: numNibbles changed by the INT_MIN fix)', 'hand-written immediate with magnitude in [2^24, 2^28): sized and emitted as 6 nibbles while the listing prints the full value'),
+ 'C01-C': ('C01', 'ConstProp folds `and` to 0 when either operand is constant zero, deleting the evaluation of a side-effecting left operand', '`e and false` where e contains a call with output/input/global effects'),
+ 'C01-D': ('C01', 'self-recursive tail calls reuse the frame: actuals are written into the formals one at a time', 'return f(n - 1, acc + n): a later actual reads a formal an earlier actual has already overwritten (sumto(10,0) = 45)'),
+ 'C02-C': ('C02', 'effective address of LDAI/LDBI/STAI computed in 64 bits: no wrap-around modulo 2^32', 'indexed access with a negative (NFIX) operand: mem[0x100000009] instead of mem[9]'),
+ 'C02-D': ('C02', 'HexSimIO::output routes by (stream >> 8) & 7 == 0 instead of stream < 256', 'WRITE to a stream >= 2048 whose bits 8..10 are zero goes to stdout instead of simout0'),
+ 'C03-C': ('C03', 'BRZ/BRN test registered zero/negative flags of areg that reset to 0 (zero flag should reset to 1)', 'a BRZ as the very first instruction after reset'),
+ 'C03-D': ('C03', 'hex.sv turns o_syscall_valid into a rising-edge pulse', 'two adjacent OPR SVC bytes: the second request is suppressed'),
+ 'C04-C': ('C04', 'prefix emission over an unsigned copy masked with (1U << size*4) - 1', 'eight-nibble encodings (|v| >= 2^28): shift by 32, every nibble emitted as zero'),
+ 'C04-D': ('C04', 'lexer range check rejects literals >= UINT_MAX (off by one)', 'the literal 4294967295 (unsigned spelling of -1) is rejected'),
+ 'C05-Cp': ('C05', 'unknown-label and alignment checks hoisted out of the layout loop, run once after the first pass (ported to HEAD)', 'an absolutely referenced label that is aligned in the first pass and moved off the boundary by a growing reference: accepted and truncated'),
+ 'C05-D': ('C05', 'precedesData returns true at the end of the program: trailing labels are aligned up', 'program ending in labels after code whose length is not a multiple of 4: header length and trailing label addresses wrong'),
+ 'C06-C': ('C06', 'hextb READ shim keeps the character in an int and drops & 0xFF', 'input byte >= 0x80 or EOF used numerically: sign-extended on hextb, zero-extended on hexsim'),
+ 'C06-D': ('C06', 'hextb load() clips the memcpy at min(bytes, MAX_MEMORY_SIZE_WORDS) - a word count used as a byte count', 'images larger than 200000 bytes are silently truncated in the DUT memory'),
+ 'C07-C': ('C07', 'ConstProp keeps a map of global val values keyed by bare name and consults it before the scoped lookup', 'a formal/local with the same name as a global val is replaced by the global constant'),
+ 'C07-D': ('C07', 'ExprCodeGen combines (e op1 c1) op2 c2 into e op1 k with a wrong rule for minus/minus', '(x - 3) - 1 evaluates to x - 2'),
+ 'C08-C': ('C08', 'loadActuals skips LDBM 1 between actuals whose code is assumed to keep breg (wrong for and/or)', 'a call whose second or later actual is an and/or of comparisons: the actual is stored through a stale breg'),
+ 'C08-D': ('C08', 'frame exit label named <procedure>_exit instead of _labN', 'a program declaring both foo and foo_exit: return branches into the other procedure'),
+ 'C09-C': ('C09', 'ConstProp resolves forward val references by visiting the declaration on demand, without cycle detection', 'val a = a; / val a = b; val b = a; : unbounded recursion, SIGSEGV'),
+ 'C09-D': ('C09', 'new dead-code-after-exit peephole whose skip loop has no bound', 'a source with no procedure at all (empty file, comments only, globals only): read past the directive vector'),
+ 'C10-Bp': ('C10', 'unknown-label check moved into the relative-operand helper only (ported to HEAD)', 'undefined label as operand of LDAM/LDBM/STAM/LDAC/LDBC: null Label* dereferenced'),
+ 'C10-C': ('C10', 'layout loop also iterates while a label value written through the name-keyed map changes', 'a label defined twice at different addresses: hexasm never terminates'),
+ 'C10-D': ('C10', 'OPR operand whitelist removed from the InstrOp constructors; tokenToOprInstr throws instead', 'OPR followed by a non-operand: diagnostic after the header has been written (truncated output), and --instrs lists it with status 0'),
+ 'C11-C': ('C11', 'debug symbols recorded in a std::map keyed by Label* (heap address order)', 'two or more procedures and an allocator state in which address order differs from allocation order'),
+ 'C11-D': ('C11', 'CodeBuffer::labelCount becomes inline static', 'two compilations in one process: listings (_labN numbering) differ'),
+ 'C12-C': ('C12', 'simulator memory becomes a reference to a function-local static array', 'two Processors in one process: the second inherits the memory of the first'),
+ 'C12-D': ('C12', 'lastPC and cycles++ moved inside if (tracing)', '--max-cycles is ignored unless -t is given'),
+ 'C13-C': ('C13', 'memory.sv qualifies the write enable with a registered copy of reset that has no reset itself', 'power-on rst_q = 0 with the random pc on a store byte: one stray store into the image before reset'),
+ 'C13-D': ('C13', 'hextb READ shim no longer writes the result slot at end of input', 'READ on exhausted stdin into a never-written slot: exit value is power-on garbage'),
+ 'C14-C': ('C14', 'hexasm main: generic std::exception handler no longer sets the failure status', 'unopenable source, two sources, unknown option, -o without value: diagnostic but exit 0'),
+ 'C14-D': ('C14', 'xcmp option parsing split to add --output=FILE; the space-separated --output FILE form never assigns the name', 'xcmp --output FILE writes a.out'),
+ 'C15-C': ('C15', 'lookupSymbol caches the last symbol with an inclusive end address', 'control passing from procedure P to the entry of the next procedure: labelled P+size instead of Q+0'),
+ 'C15-D': ('C15', 'debugInfoMap replaced by a name search using strncmp(entry, name, strlen(name))', 'a procedure whose name is a prefix of an earlier one (mul_step before mul): wrong offsets'),
+ 'C16-C': ('C16', 'processor.v copies: o_d_valid / o_d_we rewritten as a casez whose STAI pattern also matches opcode 0xC', 'any byte 0xC0..0xCF: the .v copies store, processor.sv does nothing'),
+ 'C16-D': ('C16', 'synth/processor.v only: pc increment computed in 20 bits', 'code at addresses >= 0x0FFFFF; the two shipped copies differ'),
+ 'C17-C': ('C17', 'resolveLabels asks for another pass only when a grown reference sits before the last label', 'a reference of >= 2 bytes after the last label with directives behind it: stale offsets in listing and header'),
+ 'C17-D': ('C17', 'emitProgramBin emits operandSize(value) prefix bytes instead of getSize()', 'a reference whose operand shrank after it was extended: the image is shorter than the listing says'),
 }
 
 
